@@ -75,7 +75,7 @@ fn eval_set(spec: &Value, stg: &SymbolicAsyncGraph, bn: &BooleanNetwork, named: 
         }
         "not" => unit.minus(&eval_set(&spec["a"], stg, bn, named)?),
         "bdd" => mk(Bdd::from_string(spec["s"].as_str().unwrap())),
-        "mc" => model_check_formula_dirty(spec["f"].as_str().unwrap(), stg)?,
+        "mc" => model_check_extended_formula_dirty(spec["f"].as_str().unwrap(), stg, named)?,
         "ref" => named.get(spec["name"].as_str().unwrap()).ok_or("unknown ref")?.clone(),
         _ => return Err(format!("unknown set spec {t}")),
     })
